@@ -55,6 +55,13 @@ func silence(v int) func(from int, m tss.Message) []tss.Message {
 }
 
 func runC20(r *Run, rng *rand.Rand, thorough bool) {
+	// a crash of the library on its own stored key data anywhere below ends the run, but what was observed up to
+	// then (e.g. the modified key data that causes it) is still reported
+	defer func() {
+		if e := recover(); e != nil {
+			r.Assert(false, "history/crash", "stored-key-data-keeps-working", func() string { return fmt.Sprintf("a later operation on the same in-memory key data crashed: %v", e) })
+		}
+	}()
 	r.Rule = "histories of k operations drawn from {serialise+reload through encoding/json, sign with a subset (any order), sign with a derivation offset, aborted signing (a peer silenced, a peer's message altered)} on one key per curve; after EVERY operation the stored key data is compared with a deep snapshot (canonical JSON) taken before it; the R component of every completed session is compared with every other, including two sessions on the same message with the same signers; non-trivial = one operation; direct assertions: reload is lossless, reloaded keys sign with valid results, stored key data never modified, no nonce reuse"
 	k := 4
 	if thorough {
@@ -85,81 +92,93 @@ func runC20(r *Run, rng *rand.Rand, thorough bool) {
 			if step%3 == 2 && len(nonces) > 0 {
 				m = big.NewInt(424242) // the same message again: nonces must still differ
 			}
-			switch op {
-			case "reload":
-				re := make([]ecdsakeygen.LocalPartySaveData, len(work.keys))
-				ok := true
-				for i := range work.keys {
-					var d ecdsakeygen.LocalPartySaveData
-					if err := json.Unmarshal([]byte(before[i]), &d); err != nil {
-						ok = false
+			skip := func() (skip bool) {
+				// a crash inside a session (e.g. the library refusing its own stored key data) ends this operation only
+				defer func() {
+					if e := recover(); e != nil {
+						r.Assert(false, "ecdsa-history/session-crash/"+op, "stored-key-data-keeps-working", func() string { return fmt.Sprintf("history %v: %v", ops, e) })
 					}
-					re[i] = d
+				}()
+				switch op {
+				case "reload":
+					re := make([]ecdsakeygen.LocalPartySaveData, len(work.keys))
+					ok := true
+					for i := range work.keys {
+						var d ecdsakeygen.LocalPartySaveData
+						if err := json.Unmarshal([]byte(before[i]), &d); err != nil {
+							ok = false
+						}
+						re[i] = d
+					}
+					after := snapEc(re)
+					r.Assert(ok && sameSnap(before, after) < 0, "ecdsa/reload", "json-roundtrip-lossless", func() string { return fmt.Sprint("party ", sameSnap(before, after)) })
+					work.keys = re
+					return true
+				case "sign":
+					net, out := runEcdsaSigning(rng, work, sub, m, -1, nil, Strategy{Name: "random", Pick: pickRandom}, rng.Perm(len(sub)))
+					checkEcdsaSignature(r, "ecdsa-history/sign", net, out, eks.keys[0].ECDSAPub, m, -1, nil)
+					if len(out.sigs) > 0 {
+						nonces = append(nonces, eBytes(out.sigs[0].R))
+					}
+				case "sign-offset":
+					il, child, err := ckd.DeriveChildKeyFromHierarchy([]uint32{uint32(rng.Int31n(1000))}, extKey(eks.keys[0].ECDSAPub, 0, randBytes(rng, 32)), q, S)
+					if err != nil {
+						return true
+					}
+					cp := &ecKeySet{n: work.n, t: work.t, pids: work.pids}
+					for _, kk := range work.keys {
+						c := kk
+						c.BigXj = append([]*crypto.ECPoint{}, kk.BigXj...)
+						cp.keys = append(cp.keys, c)
+					}
+					cpub := ecdsa.PublicKey{Curve: S, X: child.X, Y: child.Y}
+					if err := ecdsasigning.UpdatePublicKeyAndAdjustBigXj(il, cp.keys, &cpub, S); err != nil {
+						return true
+					}
+					net, out := runEcdsaSigning(rng, cp, sub, m, -1, il, Strategy{Name: "fifo", Pick: pickFIFO}, nil)
+					cpt, _ := crypto.NewECPoint(S, child.X, child.Y)
+					checkEcdsaSignature(r, "ecdsa-history/sign-offset", net, out, cpt, m, -1, eks.keys[0].ECDSAPub)
+					if len(out.sigs) > 0 {
+						nonces = append(nonces, eBytes(out.sigs[0].R))
+					}
+				case "abort-silent", "abort-tamper":
+					un := make(tss.UnSortedPartyIDs, len(sub))
+					for a, j := range sub {
+						un[a] = work.pids[j]
+					}
+					pids := tss.SortPartyIDs(un)
+					kk := make([]ecdsakeygen.LocalPartySaveData, 0, len(pids))
+					for _, id := range pids {
+						for j, p := range work.pids {
+							if string(p.Key) == string(id.Key) {
+								kk = append(kk, work.keys[j])
+							}
+						}
+					}
+					net := ecdsaSigningNet(rng, kk, pids, work.t, m, -1, nil)
+					if op == "abort-silent" {
+						net.Tamper = silence(len(pids) - 1)
+					} else {
+						trng := rand.New(rand.NewSource(rng.Int63()))
+						net.Tamper = func(from int, mm tss.Message) []tss.Message {
+							if from != 0 || shortType(mm.Type()) != "SignRound4Message" {
+								return []tss.Message{mm}
+							}
+							tm, _ := tamperMsg(trng, mm, nil, injSpec{Type: "SignRound4Message", Field: "proof_t", Kind: "+1"})
+							return []tss.Message{tm}
+						}
+					}
+					net.Run(rng, Strategy{Name: "fifo", Pick: pickFIFO}, 200000)
+					done := 0
+					for _, nd := range net.Nodes[1:] {
+						done += len(nd.Ends)
+					}
+					r.Assert(done == 0 || op == "abort-silent" && false, "ecdsa-history/"+op, "aborted-session-produces-no-signature-at-honest-peers", func() string { return fmt.Sprint(done) })
 				}
-				after := snapEc(re)
-				r.Assert(ok && sameSnap(before, after) < 0, "ecdsa/reload", "json-roundtrip-lossless", func() string { return fmt.Sprint("party ", sameSnap(before, after)) })
-				work.keys = re
+				return false
+			}()
+			if skip {
 				continue
-			case "sign":
-				net, out := runEcdsaSigning(rng, work, sub, m, -1, nil, Strategy{Name: "random", Pick: pickRandom}, rng.Perm(len(sub)))
-				checkEcdsaSignature(r, "ecdsa-history/sign", net, out, eks.keys[0].ECDSAPub, m, -1, nil)
-				if len(out.sigs) > 0 {
-					nonces = append(nonces, eBytes(out.sigs[0].R))
-				}
-			case "sign-offset":
-				il, child, err := ckd.DeriveChildKeyFromHierarchy([]uint32{uint32(rng.Int31n(1000))}, extKey(eks.keys[0].ECDSAPub, 0, randBytes(rng, 32)), q, S)
-				if err != nil {
-					continue
-				}
-				cp := &ecKeySet{n: work.n, t: work.t, pids: work.pids}
-				for _, kk := range work.keys {
-					c := kk
-					c.BigXj = append([]*crypto.ECPoint{}, kk.BigXj...)
-					cp.keys = append(cp.keys, c)
-				}
-				cpub := ecdsa.PublicKey{Curve: S, X: child.X, Y: child.Y}
-				if err := ecdsasigning.UpdatePublicKeyAndAdjustBigXj(il, cp.keys, &cpub, S); err != nil {
-					continue
-				}
-				net, out := runEcdsaSigning(rng, cp, sub, m, -1, il, Strategy{Name: "fifo", Pick: pickFIFO}, nil)
-				cpt, _ := crypto.NewECPoint(S, child.X, child.Y)
-				checkEcdsaSignature(r, "ecdsa-history/sign-offset", net, out, cpt, m, -1, eks.keys[0].ECDSAPub)
-				if len(out.sigs) > 0 {
-					nonces = append(nonces, eBytes(out.sigs[0].R))
-				}
-			case "abort-silent", "abort-tamper":
-				un := make(tss.UnSortedPartyIDs, len(sub))
-				for a, j := range sub {
-					un[a] = work.pids[j]
-				}
-				pids := tss.SortPartyIDs(un)
-				kk := make([]ecdsakeygen.LocalPartySaveData, 0, len(pids))
-				for _, id := range pids {
-					for j, p := range work.pids {
-						if string(p.Key) == string(id.Key) {
-							kk = append(kk, work.keys[j])
-						}
-					}
-				}
-				net := ecdsaSigningNet(rng, kk, pids, work.t, m, -1, nil)
-				if op == "abort-silent" {
-					net.Tamper = silence(len(pids) - 1)
-				} else {
-					trng := rand.New(rand.NewSource(rng.Int63()))
-					net.Tamper = func(from int, mm tss.Message) []tss.Message {
-						if from != 0 || shortType(mm.Type()) != "SignRound4Message" {
-							return []tss.Message{mm}
-						}
-						tm, _ := tamperMsg(trng, mm, nil, injSpec{Type: "SignRound4Message", Field: "proof_t", Kind: "+1"})
-						return []tss.Message{tm}
-					}
-				}
-				net.Run(rng, Strategy{Name: "fifo", Pick: pickFIFO}, 200000)
-				done := 0
-				for _, nd := range net.Nodes[1:] {
-					done += len(nd.Ends)
-				}
-				r.Assert(done == 0 || op == "abort-silent" && false, "ecdsa-history/"+op, "aborted-session-produces-no-signature-at-honest-peers", func() string { return fmt.Sprint(done) })
 			}
 			after := snapEc(work.keys)
 			r.Assert(sameSnap(before, after) < 0, "ecdsa-history/stored-key-modified/"+op, "stored-key-data-unchanged-by-session", func() string {
